@@ -1184,6 +1184,8 @@ func runPreorder() {
 					cls = "eof"
 				case "invalid char":
 					cls = "invalid"
+				case "recursion exceeded max depth":
+					cls = "recurse"
 				default:
 					cls = "other:" + pe.Message()
 				}
@@ -1193,7 +1195,7 @@ func runPreorder() {
 		}
 		w.Line("P", out.HexS(doc), cls, out.Itoa(v.max))
 	}
-	for _, d := range []int{1, 2, 3, 100, 1000, 3000} {
+	for _, d := range []int{1, 2, 3, 100, 1000, 3000, 4095, 4096, 4097, 5000} {
 		emit(strings.Repeat("[", d) + strings.Repeat("]", d))
 		emit(strings.Repeat("[", d))
 		emit(strings.Repeat(`{"k":`, d) + "1" + strings.Repeat("}", d))
